@@ -10,6 +10,54 @@ mod sim;
 mod wire;
 mod world;
 
+// A counting allocator: the codec scenarios bound the memory a decoder may take for an input
+use std::alloc::{GlobalAlloc, Layout, System};
+use std::sync::atomic::{AtomicUsize, Ordering as AtomicOrdering};
+
+struct Counting;
+static ALLOC_NOW: AtomicUsize = AtomicUsize::new(0);
+static ALLOC_PEAK: AtomicUsize = AtomicUsize::new(0);
+
+unsafe impl GlobalAlloc for Counting {
+    unsafe fn alloc(&self, l: Layout) -> *mut u8 {
+        let p = System.alloc(l);
+        if !p.is_null() {
+            let now = ALLOC_NOW.fetch_add(l.size(), AtomicOrdering::Relaxed) + l.size();
+            ALLOC_PEAK.fetch_max(now, AtomicOrdering::Relaxed);
+        }
+        p
+    }
+    unsafe fn dealloc(&self, p: *mut u8, l: Layout) {
+        System.dealloc(p, l);
+        ALLOC_NOW.fetch_sub(l.size(), AtomicOrdering::Relaxed);
+    }
+    unsafe fn realloc(&self, p: *mut u8, l: Layout, new_size: usize) -> *mut u8 {
+        let q = System.realloc(p, l, new_size);
+        if !q.is_null() {
+            if new_size >= l.size() {
+                let now = ALLOC_NOW.fetch_add(new_size - l.size(), AtomicOrdering::Relaxed) + (new_size - l.size());
+                ALLOC_PEAK.fetch_max(now, AtomicOrdering::Relaxed);
+            } else {
+                ALLOC_NOW.fetch_sub(l.size() - new_size, AtomicOrdering::Relaxed);
+            }
+        }
+        q
+    }
+}
+
+#[global_allocator]
+static GLOBAL: Counting = Counting;
+
+pub fn alloc_now() -> usize {
+    ALLOC_NOW.load(AtomicOrdering::Relaxed)
+}
+pub fn alloc_peak() -> usize {
+    ALLOC_PEAK.load(AtomicOrdering::Relaxed)
+}
+pub fn alloc_reset_peak() {
+    ALLOC_PEAK.store(ALLOC_NOW.load(AtomicOrdering::Relaxed), AtomicOrdering::Relaxed);
+}
+
 fn usage() -> ! {
     eprintln!(
         "usage: simcheck <Cxx> <quick|thorough> [--runs N] [--workers N] [--max-wall S]\n       simcheck --replay <file> [--quiet]\n       simcheck one <Cxx> <index>\n       simcheck hashes <Cxx> <from> <to>"
